@@ -2,8 +2,8 @@ package govc
 
 import (
 	"fmt"
-	"math/big"
 	"go/types"
+	"math/big"
 	"sort"
 	"strings"
 
@@ -71,6 +71,17 @@ func (e *Enc) writesOfBlocks(fn *ssa.Function, body map[int]bool, seen map[*ssa.
 				mt := ins.Map.Type().Underlying().(*types.Map)
 				out[mapHeap(mt)] = true
 				out[mapDomHeap(mt)] = true
+			case *ssa.Convert:
+				// []byte(string) allocates and fills a fresh byte object
+				if sl, ok := ins.Type().Underlying().(*types.Slice); ok && isString(ins.X.Type()) {
+					add(sl.Elem())
+				}
+			case *ssa.Next:
+				if rg, ok := ins.Iter.(*ssa.Range); ok && !ins.IsString {
+					cn, sn := iterHeaps(rg)
+					out[cn] = true
+					out[sn] = true
+				}
 			case *ssa.Alloc:
 				add(ins.Type().Underlying().(*types.Pointer).Elem())
 			case *ssa.MakeSlice:
@@ -607,6 +618,18 @@ func (e *Enc) enterLoop(fr *Frame, b *ssa.BasicBlock, hdr *loopHdr, in *State, b
 	for _, phi := range phis {
 		s := sortOf(phi.Type())
 		nv := c.Fresh("loop:"+phi.Comment, s)
+		if e.isAccumulator(phi, hdr.body) {
+			// an append-accumulator that starts at offset 0 stays at offset 0 (append writes in place or returns a
+			// fresh base slice); built in as a literal so that element terms carry no symbolic offset. Checked on
+			// every back edge.
+			if ev := entryVals[phi]; ev != nil && e.slOff(ev).IsLit() && e.slOff(ev).Val.Sign() == 0 {
+				nv = e.mkSlice(e.slObj(nv), e.bv64(0), e.slLen(nv), e.slCap(nv))
+				if e.zeroOffPhi == nil {
+					e.zeroOffPhi = map[*ssa.Phi]bool{}
+				}
+				e.zeroOffPhi[phi] = true
+			}
+		}
 		if wf := e.wellFormed(nv, phi.Type(), in); !wf.IsTrue() {
 			e.assume(in, wf)
 		}
@@ -665,6 +688,10 @@ func (e *Enc) checkBackEdge(fr *Frame, src, header *ssa.BasicBlock, cur *State, 
 		if e.isAccumulator(phi, hdr.body) && v.T != nil && e.phiEntry[phi] != nil {
 			e.oblige(fr, st, "invariant-preserved", fmt.Sprintf("loop%d.auto-accumulator", ord), "append-accumulator "+phi.Comment+" stays in its entry object or one allocated during the loop", src.Instrs[len(src.Instrs)-1].Pos(),
 				e.C.Or(e.C.Eq(e.slObj(v.T), e.slObj(e.phiEntry[phi])), e.C.Cmp("bvugt", e.slObj(v.T), e.loopAlloc[header])), e.Props)
+		}
+		if e.zeroOffPhi[phi] && v.T != nil {
+			e.oblige(fr, st, "invariant-preserved", fmt.Sprintf("loop%d.auto-accumulator-offset", ord), "append-accumulator "+phi.Comment+" stays at offset 0", src.Instrs[len(src.Instrs)-1].Pos(),
+				e.C.Eq(e.slOff(v.T), e.bv64(0)), e.Props)
 		}
 		if phi.Comment == "rangeindex" && v.T != nil && v.T.Sort.Kind == smt.KBV {
 			e.oblige(fr, st, "invariant-preserved", fmt.Sprintf("loop%d.auto-rangeindex", ord), "range index stays >= -1", src.Instrs[len(src.Instrs)-1].Pos(),
@@ -796,7 +823,15 @@ func VerifyFunc(p *Program, fn *ssa.Function, prop string) (res *FuncResult) {
 			if err != nil {
 				unsupported("invariant %s: %v", r.Label, err)
 			}
+			n0 := len(e.Axioms)
 			e.assume(st, t)
+			// remember which quantified facts came from which entry invariant (proof hints "use:" drop the others)
+			if e.entryInvAxioms == nil {
+				e.entryInvAxioms = map[int]string{}
+			}
+			for _, a := range e.Axioms[n0:] {
+				e.entryInvAxioms[a.ID] = r.Label
+			}
 		}
 		// entry-closure axioms: a pointer found in heap h at function entry refers to an object that existed at entry
 		if hs, err := p.expandHeaps(spec.Closure); err == nil {
@@ -886,7 +921,23 @@ func VerifyFunc(p *Program, fn *ssa.Function, prop string) (res *FuncResult) {
 			if err != nil {
 				unsupported("invariant %s: %v", en.Label, err)
 			}
+			n0 := len(e.Obls)
 			e.oblige(nil, out, "invariant-reestablished", en.Label, en.Src, fn.Pos(), t, en.Props)
+			if len(en.Use) > 0 {
+				keep := map[string]bool{en.Label: true}
+				for _, u := range en.Use {
+					keep[u] = true
+				}
+				drop := map[int]bool{}
+				for id, lab := range e.entryInvAxioms {
+					if !keep[lab] {
+						drop[id] = true
+					}
+				}
+				for _, o := range e.Obls[n0:] {
+					o.DropAxioms = drop
+				}
+			}
 		}
 		// frame: every heap not listed in modifies is unchanged on pre-existing objects
 		// frame obligations are generated for functions that declare a frame ("modifies ...", "modifies nothing")
@@ -906,7 +957,7 @@ func VerifyFunc(p *Program, fn *ssa.Function, prop string) (res *FuncResult) {
 			sort.Strings(names)
 			for _, h := range names {
 				// ghost:objtype is only ever written at the id of an object allocated by this activation (allocObj)
-				if modset[h] || strings.HasPrefix(h, "lghost:") || h == "ghost:work" || h == "ghost:objtype" || (h == "ghost:statever" && spec.Kind == "mutating") {
+				if modset[h] || strings.HasPrefix(h, "lghost:") || strings.HasPrefix(h, "iter:") || h == "ghost:work" || h == "ghost:objtype" || (h == "ghost:statever" && spec.Kind == "mutating") {
 					continue
 				}
 				cur := out.Heaps[h]
